@@ -95,7 +95,7 @@ type Result struct {
 }
 
 const maxDistinctPerWorker = 400000
-const maxViolationsKept = 12
+const maxViolationsKept = 60
 
 // Ctx is the per-worker monitor context handed to property code.
 type Ctx struct {
@@ -208,7 +208,7 @@ func (c *Ctx) Violation(kind, detail string, cs interface{}) {
 	defer c.mu.Unlock()
 	c.res.NViolations++
 	c.res.Counters["violation:"+kind]++
-	if len(c.res.Violations) >= maxViolationsKept {
+	if c.res.Counters["violation:"+kind] > 3 || len(c.res.Violations) >= maxViolationsKept {
 		return
 	}
 	var raw json.RawMessage
@@ -228,7 +228,7 @@ func (c *Ctx) Violation(kind, detail string, cs interface{}) {
 // known_findings.json lists it with status "known" for this property, and as
 // a violation otherwise.
 func (c *Ctx) KnownOrViolation(id, kind, detail string, cs interface{}) {
-	if e, ok := c.known[id]; ok && e.Status == "known" && e.Property == c.Prop {
+	if e, ok := c.known[id]; ok && e.Status == "known" && e.Covers(c.Prop) {
 		c.mu.Lock()
 		h := c.res.Known[id]
 		if h == nil {
@@ -247,10 +247,21 @@ func (c *Ctx) KnownOrViolation(id, kind, detail string, cs interface{}) {
 	c.Violation(kind, detail+" [would match known-finding key "+id+" but it is not listed]", cs)
 }
 
+// KnownEntries lists the entries with status "known" that cover this property.
+func (c *Ctx) KnownEntries() []KnownEntry {
+	var out []KnownEntry
+	for _, e := range c.known {
+		if e.Status == "known" && e.Covers(c.Prop) {
+			out = append(out, e)
+		}
+	}
+	return out
+}
+
 // IsKnown reports whether id is listed as known for this property.
 func (c *Ctx) IsKnown(id string) bool {
 	e, ok := c.known[id]
-	return ok && e.Status == "known" && e.Property == c.Prop
+	return ok && e.Status == "known" && e.Covers(c.Prop)
 }
 
 // Try runs f; a panic inside is recorded as a violation of kind "panic" for
